@@ -298,7 +298,7 @@ impl Property for C04 {
         // ---- the conforming inner message
         let recipient = w.users[2].clone();
         let amount = case.amount as i128;
-        let data = seeded_bytes(case.seed, 1 + case.data_len as usize);
+        let data = shaped_bytes(case.seed, 1 + case.data_len as usize);
         let src_addr_bytes = seeded_bytes(case.seed ^ 9, 20);
         let new_id = h32("c04-new-token", case.seed);
         let minter_addr = w.users[3].clone();
